@@ -325,14 +325,6 @@ PROPS = {"b58_rt": p_b58_rt, "b58_accept_iff": p_b58_accept_iff, "segwit_rt": p_
          "spk_addr": p_spk_addr, "to_address": p_to_address, "addr_distinct": p_addr_distinct, "wif_rt": p_wif_rt}
 
 
-def classify(v):
-    if v["kind"] == "prop" and v["name"] == "to_address":
-        t, h, net = v["args"]
-        if net == 3 and t in (2, 3, 4):
-            return "K-C09-to_address-regtest"
-    return None
-
-
 # ---------------------------------------------------------------- generators
 
 
